@@ -27,43 +27,43 @@ let rec int_of_nat (n : Datatypes.nat) : int = match n with Datatypes.O -> 0 | D
 let n_of_decstr (s : string) : coq_N =
   let ten = n_of_int 10 in
   let acc = ref N0 in
-  String.iter (fun c ->
-      let d = Char.code c - 48 in
+  Stdlib.String.iter (fun c ->
+      let d = Stdlib.Char.code c - 48 in
       if d < 0 || d > 9 then failwith ("bad decimal " ^ s);
       acc := BinNat.N.add (BinNat.N.mul !acc ten) (n_of_int d)) s;
   !acc
 
 let bytes_of_nlist (l : coq_N list) : string =
-  let b = Buffer.create 16 in
-  List.iter (fun n -> Buffer.add_char b (Char.chr ((int_of_n n) land 255))) l;
-  Buffer.contents b
+  let b = Stdlib.Buffer.create 16 in
+  Stdlib.List.iter (fun n -> Stdlib.Buffer.add_char b (Stdlib.Char.chr ((int_of_n n) land 255))) l;
+  Stdlib.Buffer.contents b
 
 let decstr_of_n (n : coq_N) : string = bytes_of_nlist (Dec.to_dec n)
 let decstr_of_z (z : coq_Z) : string = bytes_of_nlist (Dec.coq_Z_to_dec z)
 
 let z_of_decstr (s : string) : coq_Z =
-  if String.length s > 0 && s.[0] = '-' then
-    (match n_of_decstr (String.sub s 1 (String.length s - 1)) with
+  if Stdlib.String.length s > 0 && s.[0] = '-' then
+    (match n_of_decstr (Stdlib.String.sub s 1 (Stdlib.String.length s - 1)) with
      | N0 -> Z0 | Npos p -> Zneg p)
   else (match n_of_decstr s with N0 -> Z0 | Npos p -> Zpos p)
 
 let nlist_of_string (s : string) : coq_N list =
-  List.init (String.length s) (fun i -> n_of_int (Char.code s.[i]))
+  Stdlib.List.init (Stdlib.String.length s) (fun i -> n_of_int (Stdlib.Char.code s.[i]))
 
 let hexdigit c =
   match c with
-  | '0'..'9' -> Char.code c - 48
-  | 'a'..'f' -> Char.code c - 87
-  | 'A'..'F' -> Char.code c - 55
+  | '0'..'9' -> Stdlib.Char.code c - 48
+  | 'a'..'f' -> Stdlib.Char.code c - 87
+  | 'A'..'F' -> Stdlib.Char.code c - 55
   | _ -> failwith "hex"
 
 let unhex (s : string) : coq_N list =
   if s = "-" then []
-  else List.init (String.length s / 2) (fun i -> n_of_int (16 * hexdigit s.[2*i] + hexdigit s.[2*i+1]))
+  else Stdlib.List.init (Stdlib.String.length s / 2) (fun i -> n_of_int (16 * hexdigit s.[2*i] + hexdigit s.[2*i+1]))
 
 let hex (l : coq_N list) : string =
   if l = [] then "-"
-  else String.concat "" (List.map (fun n -> Printf.sprintf "%02x" (int_of_n n)) l)
+  else Stdlib.String.concat "" (Stdlib.List.map (fun n -> Stdlib.Printf.sprintf "%02x" (int_of_n n)) l)
 
 (* RESP token notation: S h | E h | I h | B h | BN | AN | A n e1..en ; consumes from a token list ref *)
 let next (toks : string list ref) : string =
@@ -81,7 +81,7 @@ let rec parse_resp (toks : string list ref) : RespT.resp =
   | "AN" -> RespT.ArrNil
   | "A" ->
     let n = int_of_string (next toks) in
-    let rec go i acc = if i = 0 then List.rev acc else go (i - 1) (parse_resp toks :: acc) in
+    let rec go i acc = if i = 0 then Stdlib.List.rev acc else go (i - 1) (parse_resp toks :: acc) in
     RespT.Arr (go n [])
   | t -> failwith ("bad resp token " ^ t)
 
@@ -93,9 +93,9 @@ let rec resp_tokens (r : RespT.resp) : string list =
   | RespT.Bulk b -> ["B"; hex b]
   | RespT.BulkNil -> ["BN"]
   | RespT.ArrNil -> ["AN"]
-  | RespT.Arr l -> "A" :: string_of_int (List.length l) :: List.concat_map resp_tokens l
+  | RespT.Arr l -> "A" :: string_of_int (Stdlib.List.length l) :: Stdlib.List.concat_map resp_tokens l
 
-let resp_to_string r = String.concat " " (resp_tokens r)
+let resp_to_string r = Stdlib.String.concat " " (resp_tokens r)
 
 let split_ws (s : string) : string list =
-  List.filter (fun x -> x <> "") (String.split_on_char ' ' s)
+  Stdlib.List.filter (fun x -> x <> "") (Stdlib.String.split_on_char ' ' s)
